@@ -479,3 +479,119 @@ func ruleRefsHandover(c *Ctx) {
 	}
 	c.Floor("uncounted hand-overs between stacks", n, 1)
 }
+
+// ---------------------------------------------------------------------------
+// record-kind (C10, C17, C20): a node *record* - what the trie stores under a hash, what a peer sends as MPT data, what
+// a proof lists - is a branch, an extension or a leaf. The decoder of records (NodeObject.DecodeBinary) is also the
+// decoder of children and therefore accepts the two child-only kinds: a hash node (0x03 + 32 bytes) and the empty
+// node (0x04). Neither can be used as a record: EmptyNode has no cache to fill (`n.Node.(flushedNode)` panics) and
+// panics in Hash(); a HashNode given setCache(data, h) takes the hash of its own record and points at itself, so the
+// walk that loaded it recurses until the stack overflows. Every function that decodes a record must therefore refuse
+// both kinds before it uses the node. Sibling: Billet.RestoreHashNode refuses both (sync-guards).
+func ruleRecordKind(c *Ctx, pkgs ...string) {
+	want := map[string]bool{}
+	for _, p := range pkgs {
+		want[p] = true
+	}
+	n := 0
+	for _, fd := range c.P.AllFuncDecls() {
+		if !want[pkgRel(fd.Pkg.Types)] || fd.Decl.Body == nil {
+			continue
+		}
+		f := c.P.NewFuncCFG(fd)
+		if f == nil || len(f.CallSites("pkg/core/mpt.(*NodeObject).DecodeBinary")) == 0 {
+			continue
+		}
+		info := fd.Pkg.TypesInfo
+		isNodeField := func(e ast.Expr) bool {
+			se, ok := ast.Unparen(e).(*ast.SelectorExpr)
+			if !ok {
+				return false
+			}
+			v, ok := info.ObjectOf(se.Sel).(*types.Var)
+			return ok && v.IsField() && symOf(v) == "pkg/core/mpt#Node"
+		}
+		// uses of <obj>.Node that need a real record: returned, passed on, asserted without comma-ok, or a method
+		// other than Type() called on it
+		var uses []site
+		for _, b := range f.G.Blocks {
+			if !b.Live {
+				continue
+			}
+			for i, nd := range b.Nodes {
+				used := false
+				commaOK := map[ast.Expr]bool{}
+				inspectNoLit(nd, func(x ast.Node) bool {
+					switch y := x.(type) {
+					case *ast.AssignStmt:
+						if len(y.Lhs) == 2 && len(y.Rhs) == 1 {
+							if ta, ok := ast.Unparen(y.Rhs[0]).(*ast.TypeAssertExpr); ok {
+								commaOK[ta] = true
+							}
+						}
+					case *ast.TypeSwitchStmt:
+						return false
+					case *ast.ReturnStmt:
+						for _, r := range y.Results {
+							if isNodeField(r) {
+								used = true
+							}
+						}
+					case *ast.TypeAssertExpr:
+						if isNodeField(y.X) && !commaOK[y] && y.Type != nil {
+							used = true
+						}
+					case *ast.CallExpr:
+						for _, a := range y.Args {
+							if isNodeField(a) {
+								if cs := f.calleeSym(y); cs != "pkg/core/mpt.isEmpty" {
+									used = true
+								}
+							}
+						}
+						if se, ok := ast.Unparen(y.Fun).(*ast.SelectorExpr); ok && isNodeField(se.X) && se.Sel.Name != "Type" {
+							used = true
+						}
+					}
+					return true
+				})
+				if used {
+					uses = append(uses, site{blk: b, idx: i, node: nd})
+				}
+			}
+		}
+		if len(uses) == 0 {
+			continue
+		}
+		n++
+		base := "record-kind." + FuncKey(fd.Obj)
+		for _, k := range []struct {
+			id, doc string
+			alts    [][]string
+		}{
+			{"not-hash-node", "a hash node is not a record", [][]string{{"type:pkg/core/mpt.HashNode"}, {"pkg/core/mpt.HashT"}}},
+			{"not-empty-node", "the empty node is not a record", [][]string{{"type:pkg/core/mpt.EmptyNode"}, {"pkg/core/mpt.EmptyT"}, {"pkg/core/mpt.isEmpty"}}},
+		} {
+			if k.id == "not-hash-node" && pkgRel(fd.Pkg.Types) != "pkg/core/mpt" {
+				// outside package mpt a decoded record is handed to Billet.RestoreHashNode, which refuses hash nodes itself
+				// (sync-guards); the self-reference arises only where the record's own hash is given to setCache
+				continue
+			}
+			ok := false
+			var last GateResult
+			for _, alt := range k.alts {
+				last = f.CheckGate(f.Entry(), blocksOf(uses), Guard{ID: k.id, Doc: k.doc, Alts: [][]string{alt}}, nil)
+				if last.OK {
+					ok = true
+					break
+				}
+			}
+			if ok {
+				c.OK(base+"."+k.id, c.P.Pos(fd.Decl.Pos()), last.Msg)
+			} else {
+				c.Fail(base+"."+k.id, c.P.Pos(uses[0].node.Pos()), fmt.Sprintf("%s decodes a node record and uses it without refusing the child-only kind (%s): such a record makes the node panic (EmptyNode has no cache and no hash) or point at itself (a HashNode given its own record's hash)", FuncKey(fd.Obj), k.doc), last.Path...)
+			}
+		}
+	}
+	c.Floor("functions decoding node records", n, 2)
+}
